@@ -8,7 +8,6 @@ import (
 	"fmt"
 	"os"
 	"path/filepath"
-	"testing/synctest"
 
 	"github.com/algorand/go-algorand/crypto"
 	"github.com/algorand/go-algorand/protocol"
@@ -270,7 +269,7 @@ func (s *Sim) shadowCheck(n *Node, sent []UVote) {
 		s.harness = "shadow start: " + err.Error()
 		return
 	}
-	synctest.Wait()
+	s.quiesce()
 	in.mu.Lock()
 	out := in.outbox
 	in.outbox = nil
